@@ -447,6 +447,9 @@ func writeOnlyCounter(c *core.Ctx, pkg string, g *ssa.Global, reached map[*ssa.F
 				if !reached[fn] && !reached[top] {
 					continue // a reader outside what the root reaches
 				}
+				if in.Block() != nil && ir.InAtomicSpinLoop(in.Block()) {
+					continue // the gauge's own compare-and-swap update loop: its reads feed nothing but that update
+				}
 				name := sc.Name()
 				isWrite := strings.HasPrefix(name, "Add") || strings.HasPrefix(name, "Store") || strings.HasPrefix(name, "Swap") || strings.HasPrefix(name, "And") || strings.HasPrefix(name, "Or")
 				unused := val == nil || val.Referrers() == nil || len(*val.Referrers()) == 0
